@@ -131,6 +131,13 @@ def push0 (o : Obj P) (p : Recv.Pkt) : Obj P × List WEv :=
 def push (o : Obj P) (p : Recv.Pkt) : Obj P × List WEv :=
   if p.toi = 0 then push0 P o p else pushN P o p
 
+/-- the FDT File entry as `ObjectReceiver::attach_fdt` reads it.  STATED GAP: `md5 := none` - the session
+    model's `FileAbs` does not carry `Content-MD5` (the engine's hook reports only its presence), so for a
+    parameter set `P` whose writer enables the MD5 check the digest comparison of the code is NOT
+    represented here: every `*_full_object_model` / whole-call statement is about receivers whose FDT
+    File entries carry no Content-MD5, or whose writer does not check it (the `recv` engine's writer:
+    `enable_md5_check() = false`).  Totality is unaffected (orecv's `tinv_attachFdt` holds for every
+    entry); what is lost is the complete-vs-error decision on a digest mismatch. -/
 def entryOf (x : FileAbs) (cc : CacheControl) : ObjRecv.FileEntry :=
   { oti := x.oti.map otiOf, tl := x.tlen, cl := x.contentLength, cenc := cencOf x.cenc, md5 := none,
     noCache := decide (cc = .noCache) }
